@@ -20,6 +20,7 @@ DRIVERS = ["tracker"]
 THEOREMS = ["C16_valid_script", "C16_bounded", "C16_moves_ok_fit", "C16_update_total", "C16_to_lines_total",
             "C16_line_char_roundtrip", "C16_roundtrip_refuted", "C16_merge_preserves_coverage",
             "C16_merge_keeps_markers", "C16_equal_keeps", "C16_new_is_authors", "C16_equal_keeps_markers",
+            "C16_merge_keeps_lines", "C16_identity_keeps_lines", "C16_identity_inverted_refuted",
             "C16_identity_fixpoint", "C16_regression_moved_block", "C16_regression_inverted_prior",
             "C16_regression_tie", "C16_regression_marker", "C16_nonvacuous"]
 CLAIM = {
@@ -30,14 +31,15 @@ CLAIM = {
             "for ANY attributions on valid UTF-8; merge preserves the per-byte (author, ts) cover and the zero-length "
             "markers; bytes of Equal segments keep exactly their cover in the output of update; bytes of Insert "
             "segments outside move targets belong to the reporting author; zero-length deletion markers move along "
-            "with unchanged text; merge-normal forms are fixpoints of an update with the identical text; line -> "
+            "with unchanged text; merge changes no line's (author, overrode) and an identical text keeps all line "
+            "attributions for any priors with start <= end; line -> "
             "char -> line keeps the AI lines under the exact side condition wf_lattrs. The model describes the tracker "
             "with the repairs of the former classes C16-K1..K4, whose witnesses are proved regression lemmas.",
     "design_ref": "DESIGN.md §4 C16",
     "note": "compute_diffs (imara line diff, tokenizer, token diff) and detect_moves are an oracle: the theorems "
             "hold for all facts meeting wf_diff / moves_fit, and those contracts are monitored on the real facts of "
-            "every generated pair. C16_identity_keeps_lines (general priors), C16_boundaries and C16_ws_reformat are "
-            "tested (oracle) but not proved; C16-K5 (line-level diff anchoring) stays a known finding. "
+            "every generated pair. C16_boundaries and C16_ws_reformat are tested (oracle) but not proved; C16-K5 "
+            "(line-level diff anchoring) stays a known finding. "
             "The harness is a debug build (overflow checks on); a release build is not exercised.",
     "technique": "Coq proof over extracted model + differential correspondence on real diff facts + contract monitors",
 }
